@@ -44,7 +44,7 @@ func (t *ty) sexp() sx.Sexp {
 		return sx.Int(*b)
 	}
 	switch t.tag {
-	case "int", "str":
+	case "int", "str", "tsp":
 		if t.lo == nil && t.hi == nil {
 			return sx.A(t.tag)
 		}
@@ -995,6 +995,8 @@ func genNewM(g *core.G) {
 	genNewMContainers(g, emit)
 	genNewMNum(g, emit)
 	genNewMTree(g, emit)
+	genNewMBin(g, emit)
+	genNewMTsp(g, emit)
 	recvs := []sx.Sexp{sx.T("init")}
 	for _, t := range newmRecv {
 		recvs = append(recvs, t.sexp(), sx.T("init", t.sexp()))
